@@ -72,10 +72,20 @@ def gen_case(rng):
     for byte, lst in spec_bits(fmt).items():
         for sname, lsb, nb in lst:
             subs[sname] = [rng.choice([0, (1 << nb) - 1, rng.randrange(1 << nb)]) for _ in range(n)]
-    ex = {}
+    ex, ex_scaling = {}, {}
     for name, tid in extras:
         base, k = extra_type(tid)
-        ex[name] = (tid, base, k, [[pattern(rng, base) for _ in range(k)] for _ in range(n)])
+        if base[0] in "iu" and rng.random() < 0.4:
+            # a scaled extra dimension (direction 1 only): dyadic scales and offsets, small stored integers, so that value = raw*scale+offset is exact
+            w = int(base[1:])
+            lo, hi = (0, min(255, 1000)) if base == "u1" else (-100, 100) if base == "i1" else (0, 1000) if base[0] == "u" else (-1000, 1000)
+            # (one scaling for all the elements of a dimension: laspy checks the largest value of the whole assignment against every element's
+            # own window, so elements with very different scalings refuse values that fit - loud, and not what this property is about)
+            s_, o_ = rng.choice([0.5, 0.25, 2.0, 1.0]), rng.choice([0.0, 16.0, -8.5, 1024.0])
+            ex_scaling[name] = ([s_] * k, [o_] * k)
+            ex[name] = (tid, base, k, [[rng.randrange(lo, hi + 1) % (1 << (8 * w)) for _ in range(k)] for _ in range(n)])
+        else:
+            ex[name] = (tid, base, k, [[pattern(rng, base) for _ in range(k)] for _ in range(n)])
     alpha = "ABCDEFGHIJKLMNOPQRSTUVWXYZabcdefghijklmnopqrstuvwxyz0123456789 _-./"
 
     def text(maxlen):
@@ -86,7 +96,7 @@ def gen_case(rng):
                scales=[rng.choice([0.01, 0.001, 0.5, 1.0, 1e-7, 2.5]) for _ in range(3)],
                offsets=[rng.choice([0.0, 1000.0, -12.25, 1e6, -0.5]) for _ in range(3)],
                date=(rng.choice([1990, 2000, 2024, 2023]), rng.choice([1, 59, 60, 365])))
-    return dict(minor=minor, fmt=fmt, n=n, fields=fields, subs=subs, extras=ex, hdr=hdr)
+    return dict(minor=minor, fmt=fmt, n=n, fields=fields, subs=subs, extras=ex, extra_scaling=ex_scaling, hdr=hdr)
 
 
 def expected_record_patterns(case, i):
@@ -118,9 +128,26 @@ def direction1(ck, case):
     import laspy
     from laspy import ExtraBytesParams
     las = laspy.create(point_format=case["fmt"], file_version=f"1.{case['minor']}")
-    if case["extras"]:
+    if case["extras"] and not case.get("extra_scaling"):
         las.add_extra_dims([ExtraBytesParams(name=nm, type=(base if k == 1 else f"{k}{base}"))
                             for nm, (tid, base, k, vals) in case["extras"].items()])
+    elif case["extras"]:
+        # declared one after the other; the caller keeps ONE scales and ONE offsets array per element count and overwrites them in place for
+        # the next dimension (and once more at the end): every dimension must keep the scaling it was declared with
+        shared = {}
+        for nm, (tid, base, k, vals) in case["extras"].items():
+            t = base if k == 1 else f"{k}{base}"
+            if nm in case["extra_scaling"]:
+                S, O = shared.setdefault(k, (np.zeros(k), np.zeros(k)))
+                S[:] = case["extra_scaling"][nm][0]
+                O[:] = case["extra_scaling"][nm][1]
+                las.add_extra_dim(ExtraBytesParams(name=nm, type=t, scales=S, offsets=O))
+            else:
+                las.add_extra_dim(ExtraBytesParams(name=nm, type=t))
+        for S, O in shared.values():
+            S *= 10.0
+            O += 1.0
+        ck.count("scaled_extras_declared_with_reused_arrays")
     import datetime
     import uuid
     hd = case["hdr"]
@@ -154,7 +181,12 @@ def direction1(ck, case):
             las[sname][n - 1] = int(v[n - 1])
     for name, (tid, base, k, vals) in case["extras"].items():
         arr = to_array([p for row in vals for p in row], base)
-        las[name] = arr if k == 1 else arr.reshape(n, k)
+        arr = arr if k == 1 else arr.reshape(n, k)
+        if name in case.get("extra_scaling", {}):
+            sc, of = case["extra_scaling"][name]
+            las[name] = arr.astype(np.float64) * (sc[0] if k == 1 else np.array(sc)) + (of[0] if k == 1 else np.array(of))
+        else:
+            las[name] = arr
     if case["minor"] >= 4 and ck.rng.random() < 0.6:
         from laspy.vlrs.vlrlist import VLRList
         case["evlrs_written"] = [("SpecEnc", 7, "an evlr", bytes(range(40))), ("SpecEnc", 8, "", b"")][:ck.rng.choice([1, 2])]
@@ -198,7 +230,7 @@ def py_spec_decode(case, data):
     hsize = int.from_bytes(data[94:96], "little")
     nvlr = int.from_bytes(data[100:104], "little")
     pos = hsize
-    eb = []
+    eb, eb_scaling = [], []
     for _ in range(nvlr):
         uid = data[pos + 2:pos + 18].split(b"\0")[0]
         rid = int.from_bytes(data[pos + 18:pos + 20], "little")
@@ -208,6 +240,7 @@ def py_spec_decode(case, data):
             for k in range(len(payload) // 192):
                 d = payload[192 * k:192 * (k + 1)]
                 eb.append((d[2], d[3], d[4:36].split(b"\0")[0].decode()))
+                eb_scaling.append((d[3], [struct.unpack("<d", d[112 + 8 * j:120 + 8 * j])[0] for j in range(3)], [struct.unpack("<d", d[136 + 8 * j:144 + 8 * j])[0] for j in range(3)]))
         pos += 54 + ln
     recs = []
     for i in range(count):
@@ -224,7 +257,7 @@ def py_spec_decode(case, data):
                 row.append(int.from_bytes(data[p:p + w], "little"))
                 p += w
         recs.append(row)
-    return dict(minor=minor, fmt=fmt, reclen=reclen, count=count, offset=off, recs=recs, eb=eb,
+    return dict(minor=minor, fmt=fmt, reclen=reclen, count=count, offset=off, recs=recs, eb=eb, eb_scaling=eb_scaling,
                 filelen_ok=(off + count * reclen == len(data)))
 
 
@@ -362,13 +395,21 @@ def check_laspy_presents(ck, case, data, inp, what):
             ck.fail(f"{what}: sub-field {sname} presented as {got} expected {vals}", dict(inp, dim=sname))
     for name, (tid, base, k, vals) in case["extras"].items():
         try:
-            arr = np.ascontiguousarray(las[name])
+            view = las[name]
+            arr = np.ascontiguousarray(las.points.array[name])
         except Exception as e:
             ck.fail(f"{what}: extra dimension {name} (type {tid}) not presented: {type(e).__name__}", dict(inp, dim=name))
             continue
         got = arr.view("u" + base[1:]).reshape(n, k).tolist()
         if got != vals:
             ck.fail(f"{what}: extra dimension {name} (type {tid}) presented as {got[:2]} expected {vals[:2]}", dict(inp, dim=name))
+        if what == "laspy-written file" and name in case.get("extra_scaling", {}):
+            sc, of = case["extra_scaling"][name]
+            want = arr.reshape(n, k).astype(np.float64) * np.array(sc) + np.array(of)
+            if np.array(view).reshape(n, k).tolist() != want.tolist():
+                ck.fail(f"{what}: scaled extra dimension {name} presented as {np.array(view).reshape(n, k).tolist()[:2]}, stored integers x declared scale + offset = {want.tolist()[:2]}", dict(inp, dim=name))
+        elif not isinstance(view, np.ndarray) or np.ascontiguousarray(view).view("u" + base[1:]).reshape(n, k).tolist() != vals:
+            ck.fail(f"{what}: extra dimension {name} (type {tid}): the named dimension does not present the stored values", dict(inp, dim=name))
     # the same file presented chunk by chunk, every chunk kept until the last one was read
     if n >= 2:
         k = max(1, n // 3)
@@ -413,7 +454,10 @@ def run(ck):
             m, f = pairs[ci]
             while (case["minor"], case["fmt"]) != (m, f):
                 case = gen_case(ck.rng)
-        inp = {"kind": "case", "minor": case["minor"], "fmt": case["fmt"], "n": case["n"],
+        if ci % 8 == 0:
+            # whatever the seed: the last day of a leap year (day 366), a leap day, the last day of an ordinary year
+            case["hdr"]["date"] = [(2024, 366), (2020, 366), (2024, 60), (2023, 365), (2000, 366)][(ci // 8) % 5]
+        inp = {"kind": "case", "minor": case["minor"], "fmt": case["fmt"], "n": case["n"], "date": list(case["hdr"]["date"]),
                "extras": {k: v[0] for k, v in case["extras"].items()},
                "fields": {k: v[1] for k, v in case["fields"].items()}, "subs": case["subs"]}
         ck.case(("c02", repr(inp)), nontrivial=True)
@@ -434,6 +478,15 @@ def run(ck):
             ck.fail(f"record length {dec['reclen']} != spec {SPEC_LEN[case['fmt']]} + extra bytes {sum(extra_widths(case))}", inp)
         if [e[0] for e in dec["eb"]] != [v[0] for v in case["extras"].values()] or [e[2] for e in dec["eb"]] != list(case["extras"]):
             ck.fail(f"extra-bytes descriptors read by the spec decoder {dec['eb']} != assigned {inp['extras']}", inp)
+        if len(dec["eb_scaling"]) == len(case["extras"]):
+            for (nm, (tid, base, k, vals)), (opt, scs, ofs) in zip(case["extras"].items(), dec["eb_scaling"]):
+                want = case.get("extra_scaling", {}).get(nm)
+                if want is None:
+                    if opt & 0x18:
+                        ck.fail(f"extra dimension {nm}: descriptor options {opt:#04x} announce a scale/offset that was not declared", dict(inp, dim=nm))
+                elif (opt & 0x18) != 0x18 or scs[:k] != want[0] or ofs[:k] != want[1]:
+                    ck.fail(f"extra dimension {nm}: declared with scales {want[0]} and offsets {want[1]}; the descriptor in the file says options {opt:#04x}, "
+                            f"scales {scs[:k]}, offsets {ofs[:k]}", dict(inp, dim=nm))
         if dec["recs"] != exp_rows:
             bad = next(((i, j) for i in range(len(exp_rows)) for j in range(len(exp_rows[i])) if i >= len(dec["recs"]) or j >= len(dec["recs"][i]) or dec["recs"][i][j] != exp_rows[i][j]), None)
             ck.fail(f"spec decoder recovers different values at point {bad[0]} field #{bad[1]}" if bad else "spec decoder recovers a different number of values", inp)
